@@ -158,14 +158,27 @@ func fieldAtoms(m map[string]string) func(ssa.Value) (string, bool) {
 
 // timeOrderHook decides time.Time.After/Before/Equal calls between mapped values.
 func timeOrderHook(vals map[ssa.Value]int64) feHook {
-	get := func(v ssa.Value) (int64, bool) {
-		v = unspill(v)
-		if n, ok := vals[v]; ok {
-			return n, true
-		}
-		return 0, false
-	}
 	return func(w *feWalker, st *feState, v ssa.Value) (constant.Value, bool) {
+		get := func(v ssa.Value) (int64, bool) {
+			if n, ok := vals[v]; ok {
+				return n, true
+			}
+			u := unspill(v)
+			if n, ok := vals[u]; ok {
+				return n, true
+			}
+			// resolve parameters of inlined helpers and loads of local cells
+			rv := w.evalVal(st, v).V
+			if rv != nil {
+				if n, ok := vals[rv]; ok {
+					return n, true
+				}
+				if n, ok := vals[unspill(rv)]; ok {
+					return n, true
+				}
+			}
+			return 0, false
+		}
 		c, ok := v.(*ssa.Call)
 		if !ok {
 			return nil, false
@@ -231,7 +244,7 @@ func ruleRangeWindow(r *Run) {
 			desc string
 		}{{5, "skip", "ts < windowStart"}, {10, "admit", "ts == windowStart"}, {15, "admit", "windowStart < ts < windowEnd"}, {20, "admit", "ts == windowEnd"}, {25, "buffer", "ts > windowEnd"}} {
 			hook := timeOrderHook(map[ssa.Value]int64{tsVal: c.ts, ws: 10, we: 20})
-			w := &feWalker{Fn: fw, Hook: hook, MaxPath: 4000}
+			w := &feWalker{Fn: fw, Hook: hook, MaxPath: 4000, Inline: inlineHelpers(fw)}
 			got := map[string]bool{}
 			for _, e := range w.Run() {
 				reached := false
@@ -328,26 +341,69 @@ func ruleRangeWindow(r *Run) {
 	// ---- clearWindow retention table
 	oc := r.Ob("FE-ORD", "logqlmetric.(*rangeAggIterator).clearWindow", "a point is retained iff its timestamp is >= windowStart (the lower edge is inside the window, as in fillWindow); every point of every series is examined; empty series are removed")
 	{
+		// the per-point loop may live in a helper of clearWindow
 		var tVal *ssa.Call
-		for _, c := range callsIn(cw) {
-			call, ok := c.(*ssa.Call)
-			if !ok {
-				continue
-			}
-			if callee := staticCallee(call); callee != nil && callee.Name() == "AsTime" {
-				tVal = call
+		var inner *rangeLoop
+		var lf *ssa.Function
+		for _, f := range funcGroup(cw) {
+			for _, l := range rangeIndexLoops(f) {
+				for b := range l.Blocks {
+					for _, in := range b.Instrs {
+						call, ok := in.(*ssa.Call)
+						if !ok {
+							continue
+						}
+						if callee := staticCallee(call); callee != nil && callee.Name() == "AsTime" {
+							if fl, _, ok := loadOfField(call.Call.Args[0]); ok && fl == "Timestamp" {
+								tVal, inner, lf = call, l, f
+							}
+						}
+					}
+				}
 			}
 		}
-		// inner loop over s.Data
-		var inner *rangeLoop
-		for _, l := range rangeIndexLoops(cw) {
-			if f, _, ok := loadOfField(l.X); ok && f == "Data" {
-				inner = l
+		// the window start as seen by that loop: the other operand of the time comparisons with the point's time
+		var wsVal ssa.Value
+		if tVal != nil {
+			for _, c := range callsIn(lf) {
+				call, ok := c.(*ssa.Call)
+				if !ok {
+					continue
+				}
+				for _, m := range []string{"After", "Before", "Equal"} {
+					if callIs(call, "time", "(Time)."+m) {
+						a0, a1 := unspill(call.Call.Args[0]), unspill(call.Call.Args[1])
+						if a0 == ssa.Value(tVal) {
+							wsVal = a1
+						} else if a1 == ssa.Value(tVal) {
+							wsVal = a0
+						}
+					}
+				}
+			}
+		}
+		// it must be clearWindow's windowStart (directly, or as the helper's argument)
+		wsOK := false
+		if wsVal != nil {
+			if lf == cw {
+				wsOK = wsVal == ssa.Value(cw.Params[1])
+			} else if prm, ok := wsVal.(*ssa.Parameter); ok {
+				for _, c := range callsIn(cw) {
+					if staticCallee(c) == lf {
+						for i, p2 := range lf.Params {
+							if p2 == prm && i < len(c.Common().Args) && c.Common().Args[i] == ssa.Value(cw.Params[1]) {
+								wsOK = true
+							}
+						}
+					}
+				}
 			}
 		}
 		switch {
 		case tVal == nil || inner == nil:
-			oc.Fail(r.pos(cw.Pos()), "no loop examining every point's timestamp (point timestamp=%v, range over s.Data=%v): retention must be decided point by point", tVal != nil, inner != nil)
+			oc.Fail(r.pos(cw.Pos()), "no loop examining every point's timestamp (point timestamp=%v, loop over the points=%v): retention must be decided point by point", tVal != nil, inner != nil)
+		case !wsOK:
+			oc.Fail(r.pos(tVal.Pos()), "the points' timestamps are not compared with clearWindow's windowStart")
 		case len(inner.earlyExits()) > 0:
 			oc.Fail(r.pos(cw.Pos()), "the point loop can be left early: later points are not examined")
 		default:
@@ -358,13 +414,25 @@ func ruleRangeWindow(r *Run) {
 				want bool
 				desc string
 			}{{5, false, "t < windowStart"}, {10, true, "t == windowStart"}, {15, true, "t > windowStart"}} {
-				hook := timeOrderHook(map[ssa.Value]int64{tVal: c.t, cw.Params[1]: 10})
-				w := &feWalker{Fn: cw, Hook: hook}
+				hook := timeOrderHook(map[ssa.Value]int64{tVal: c.t, wsVal: 10})
+				w := &feWalker{Fn: lf, Hook: hook}
 				retained := false
 				for _, e := range w.RunFrom(inner.Body, inner.Header) {
+					// events of the first iteration only
+					maxSeq := 1 << 30
+					for i, b := range e.State.trail {
+						if i > 0 && b == inner.Header {
+							maxSeq = e.State.trailSeq[i]
+							break
+						}
+					}
 					for _, s := range e.State.stores {
-						if ia, ok := s.Store.Addr.(*ssa.IndexAddr); ok && inner.Blocks[s.Store.Block()] {
-							_ = ia
+						if _, ok := s.Store.Addr.(*ssa.IndexAddr); ok && s.Seq <= maxSeq && inner.Blocks[s.Store.Block()] {
+							retained = true
+						}
+					}
+					for _, cc := range e.State.calls {
+						if bi, ok := cc.Call.Common().Value.(*ssa.Builtin); ok && bi.Name() == "append" && cc.Seq <= maxSeq && inner.Blocks[cc.Call.Block()] {
 							retained = true
 						}
 					}
